@@ -1,9 +1,10 @@
 (** C07 — One ObjectSet per template, with unique, increasing revision numbers. Statements only.
-    [hash] is ANY function (template digest, collision count) -> name; [slices]/[sliceaware]/[rev0ok] select the
-    variant of the code (see Deployment.v); histories range over template edits (reverts, no-ops), pause and limit
-    edits, deployment passes with an API fault at any request, full passes of the ObjectSet controller (ObjectSet.v),
-    revision reconciler passes, arbitrary status changes of ObjectSets, disappearance of deleted ObjectSets, probe
-    changes.  [ok_step] excludes only a deployment pass with a stale List. *)
+    [hash] is ANY function (template digest, collision count) -> name; [slices] are the ObjectSlices of the namespace.
+    [dep_pass] / [do_step] / [run] are the code as it is; the slow-cache test as it was before commit 0384cff is kept as
+    [dep_pass_v0] / [run_v0] with a [_v0_refuted] theorem only. Histories range over template edits (reverts, no-ops),
+    pause and limit edits, deployment passes with an API fault at any request, full passes of the ObjectSet controller
+    (ObjectSet.v), revision reconciler passes, arbitrary status changes of ObjectSets, disappearance of deleted
+    ObjectSets, probe changes.  [ok_step] excludes only a deployment pass with a stale List. *)
 From Coq Require Import List NArith ZArith Bool.
 Local Open Scope N_scope.
 From PKO Require Import Base Owner Api Phase ObjectSet Deployment DeploymentProofs.
@@ -12,8 +13,8 @@ Import ListNotations.
 
 (** No two ObjectSets of a deployment share a non-zero revision: over all histories with fresh Lists. *)
 Theorem C07_revisions_unique :
-  forall hash slices sliceaware rev0ok w0 h, Inv w0 -> Forall ok_step h ->
-  forall a b, In a (dw_sets (run hash slices sliceaware rev0ok w0 h)) -> In b (dw_sets (run hash slices sliceaware rev0ok w0 h)) ->
+  forall hash slices w0 h, Inv w0 -> Forall ok_step h ->
+  forall a b, In a (dw_sets (run hash slices w0 h)) -> In b (dw_sets (run hash slices w0 h)) ->
     ds_sel a = true -> ds_sel b = true -> sname a <> sname b -> srev a <> 0%Z -> srev a <> srev b.
 Proof. exact revisions_unique. Qed.
 Print Assumptions C07_revisions_unique.
@@ -21,14 +22,14 @@ Print Assumptions C07_revisions_unique.
 (** The invariant itself (unique names, unique non-zero revisions, an ObjectSet without revision names all others,
     which have one) is kept by every step. *)
 Theorem C07_invariant_step :
-  forall hash slices sliceaware rev0ok w s, Inv w -> ok_step s -> Inv (do_step hash slices sliceaware rev0ok w s).
-Proof. exact inv_step. Qed.
+  forall hash slices w s, Inv w -> ok_step s -> Inv (do_step hash slices w s).
+Proof. exact (fun hash slices => inv_step hash slices true true). Qed.
 Print Assumptions C07_invariant_step.
 
-(** In the create-not-yet-listed window uniqueness fails once the template is edited inside the window: two
-    ObjectSets with the same previous list get the same revision number. *)
+(** F-C07b (open): in the create-not-yet-listed window uniqueness fails once the template is edited inside the window:
+    two ObjectSets with the same previous list get the same revision number. *)
 Theorem C07_revisions_unique_stale_refuted :
-  exists w0 h a b, Inv w0 /\ In a (dw_sets (run wit_hash no_slices false false w0 h)) /\ In b (dw_sets (run wit_hash no_slices false false w0 h)) /\
+  exists w0 h a b, Inv w0 /\ In a (dw_sets (run wit_hash no_slices w0 h)) /\ In b (dw_sets (run wit_hash no_slices w0 h)) /\
     ds_sel a = true /\ ds_sel b = true /\ sname a <> sname b /\ srev a <> 0%Z /\ srev a = srev b /\
     os_prev (ds_set a) = os_prev (ds_set b).
 Proof. exact revisions_unique_stale_refuted. Qed.
@@ -37,15 +38,15 @@ Print Assumptions C07_revisions_unique_stale_refuted.
 (** Every Create request of a pass (any fault, fresh or stale List): the deployment is not paused, the template has
     phases, every listed ObjectSet has reported its revision, the newest listed one does not carry the template hash;
     the name and the hash annotation are the template hash, the spec is the template, and the previous list names
-    every listed ObjectSet (with a fresh List: every ObjectSet of the deployment, [listed_fresh_iff]). *)
+    every listed ObjectSet (with a fresh List: every ObjectSet of the deployment, terminating ones included). *)
 Theorem C07_create_justified :
-  forall hash fault slices sliceaware rev0ok stale w w' evs r n phs prev h cr,
-    NoDup (map sname (dw_sets w)) -> dep_pass hash fault slices sliceaware rev0ok stale w = (w', evs, r) ->
+  forall hash fault slices stale w w' evs r n phs prev h cr,
+    NoDup (map sname (dw_sets w)) -> dep_pass hash fault slices stale w = (w', evs, r) ->
     In (DCreate n phs prev h cr) evs ->
     d_paused (dw_dep w) = false /\ d_phases (dw_dep w) <> [] /\ (forall s, In s (listed stale w) -> srev s <> 0%Z) /\
     has_current (dep_hashed hash w) (listed stale w) = false /\
     n = hash (d_digest (dw_dep w)) (d_cc (dw_dep w)) /\ h = n /\ phs = d_phases (dw_dep w) /\ prev = map sname (listed stale w).
-Proof. exact create_justified. Qed.
+Proof. exact (fun hash fault slices => create_justified hash fault slices true true). Qed.
 Print Assumptions C07_create_justified.
 
 Theorem C07_listed_fresh :
@@ -56,25 +57,25 @@ Print Assumptions C07_listed_fresh.
 (** Revision numbers: a step either keeps an ObjectSet's revision, or takes it from 0 to a number greater than the
     revision of every other ObjectSet of the deployment (or the ObjectSet is the one the pass has just created). *)
 Theorem C07_revision_increasing :
-  forall hash slices sliceaware rev0ok w s x x',
-    Inv w -> ok_step s -> In x (dw_sets w) -> In x' (dw_sets (do_step hash slices sliceaware rev0ok w s)) -> sname x' = sname x ->
+  forall hash slices w s x x',
+    Inv w -> ok_step s -> In x (dw_sets w) -> In x' (dw_sets (do_step hash slices w s)) -> sname x' = sname x ->
     srev x' = srev x \/
     (srev x = 0%Z /\ srev x' <> 0%Z /\
      (ds_sel x = true -> forall b, In b (dw_sets w) -> ds_sel b = true -> sname b <> sname x -> (srev b < srev x')%Z)) \/
     (exists stale f, s = SDep stale f /\ srev x' = 0%Z).
-Proof. exact revisions_of_step. Qed.
+Proof. exact (fun hash slices => revisions_of_step hash slices true true). Qed.
 Print Assumptions C07_revision_increasing.
 
 (** Existence: template unmatched, unpaused, phases present, all revisions reported, name free => created. *)
 Theorem C07_create_when :
-  forall hash slices sliceaware rev0ok stale w w' evs r,
+  forall hash slices stale w w' evs r,
     NoDup (map sname (dw_sets w)) -> d_paused (dw_dep w) = false -> d_phases (dw_dep w) <> [] ->
     has_rev0 (listed stale w) = false -> has_current (dep_hashed hash w) (listed stale w) = false ->
     find_dset (dw_sets w) (hash (d_digest (dw_dep w)) (d_cc (dw_dep w))) = None ->
-    dep_pass hash None slices sliceaware rev0ok stale w = (w', evs, r) ->
+    dep_pass hash None slices stale w = (w', evs, r) ->
     In (DCreate (hash (d_digest (dw_dep w)) (d_cc (dw_dep w))) (d_phases (dw_dep w)) (map sname (listed stale w))
                 (hash (d_digest (dw_dep w)) (d_cc (dw_dep w))) CrOk) evs.
-Proof. exact create_when. Qed.
+Proof. exact (fun hash slices => create_when hash slices true true). Qed.
 Print Assumptions C07_create_when.
 
 (** A clash with an archived, spec-different, foreign or older holder of the name (the last case is the rollback to
@@ -82,67 +83,73 @@ Print Assumptions C07_create_when.
     labels, hash annotation, controller and spec, and the collision counter is bumped; [C07_create_when] then
     applies to the new hash. *)
 Theorem C07_no_reuse :
-  forall hash slices sliceaware rev0ok stale w w' evs r c,
+  forall hash slices stale w w' evs r c,
     NoDup (map sname (dw_sets w)) -> d_paused (dw_dep w) = false -> d_phases (dw_dep w) <> [] ->
     has_rev0 (listed stale w) = false -> has_current (dep_hashed hash w) (listed stale w) = false ->
     In c (dw_sets w) -> sname c = hash (d_digest (dw_dep w)) (d_cc (dw_dep w)) ->
     (is_archived c = true \/ phases_eqb (d_phases (dw_dep w)) (os_phases (ds_set c)) = false \/
      ds_ctrl c <> oi_uid (d_id (dw_dep w)) \/
-     ((srev c < latest_revision (listed stale w))%Z /\ (rev0ok = false \/ srev c <> 0%Z))) ->
-    dep_pass hash None slices sliceaware rev0ok stale w = (w', evs, r) ->
+     ((srev c < latest_revision (listed stale w))%Z /\ srev c <> 0%Z)) ->
+    dep_pass hash None slices stale w = (w', evs, r) ->
     r = DpDone /\ created_name evs = None /\
     In (DCreate (sname c) (d_phases (dw_dep w)) (map sname (listed stale w)) (sname c) CrExists) evs /\
     d_cc (dw_dep w') = bump_cc (d_cc (dw_dep w)) /\
     exists c', In c' (dw_sets w') /\ sid c' = sid c.
-Proof. exact no_reuse. Qed.
+Proof. exact no_reuse_now. Qed.
 Print Assumptions C07_no_reuse.
 
 (** The collision counter changes in no other way. *)
 Theorem C07_bump_only_on_clash :
-  forall hash fault slices sliceaware rev0ok stale w w' evs r h cc cs rv co sr,
-    dep_pass hash fault slices sliceaware rev0ok stale w = (w', evs, r) -> In (DStatus h cc cs rv co sr) evs ->
+  forall hash fault slices stale w w' evs r h cc cs rv co sr,
+    dep_pass hash fault slices stale w = (w', evs, r) -> In (DStatus h cc cs rv co sr) evs ->
     cc = d_cc (dw_dep w) \/
     (cc = bump_cc (d_cc (dw_dep w)) /\ forall n phs prev hh cr, In (DCreate n phs prev hh cr) evs -> cr = CrExists).
-Proof. exact dep_pass_bump. Qed.
+Proof. exact (fun hash fault slices => dep_pass_bump hash fault slices true true). Qed.
 Print Assumptions C07_bump_only_on_clash.
 
 (** Rolling back to an earlier template yields a new revision (concrete run: templates 1 -> 2 -> 1). *)
 Theorem C07_rollback_new_revision :
   map (fun s => (sname s, srev s, phases_eqb (os_phases (ds_set s)) tmpl1, os_prev (ds_set s)))
-      (dw_sets (run wit_hash no_slices false false wit_rollback_world [SDep false None; SDep false None; SRev 101])) =
+      (dw_sets (run wit_hash no_slices wit_rollback_world [SDep false None; SDep false None; SRev 101])) =
     [(100, 1%Z, true, []); (200, 2%Z, false, [100]); (101, 3%Z, true, [100; 200])] /\
-  d_cc (dw_dep (run wit_hash no_slices false false wit_rollback_world [SDep false None])) = Some 1%N.
+  d_cc (dw_dep (run wit_hash no_slices wit_rollback_world [SDep false None])) = Some 1%N.
 Proof. exact wit_rollback. Qed.
 Print Assumptions C07_rollback_new_revision.
 
 (** Exactly one: along any history with fresh Lists the number of ObjectSets created is at most one more than the number
     of template changes, and at most that number once the newest ObjectSet matches the template. *)
 Theorem C07_exactly_one_fresh_cache :
-  forall hash slices sliceaware rev0ok h w, Inv w -> Forall ok_step h ->
-    (matched hash w -> (count_creates hash slices sliceaware rev0ok w h <= count_changes hash slices sliceaware rev0ok w h)%nat) /\
-    (count_creates hash slices sliceaware rev0ok w h <= 1 + count_changes hash slices sliceaware rev0ok w h)%nat.
-Proof. exact creates_bounded. Qed.
+  forall hash slices h w, Inv w -> Forall ok_step h ->
+    (matched hash w -> (count_creates hash slices w h <= count_changes hash slices w h)%nat) /\
+    (count_creates hash slices w h <= 1 + count_changes hash slices w h)%nat.
+Proof. exact (fun hash slices => creates_bounded hash slices true true). Qed.
 Print Assumptions C07_exactly_one_fresh_cache.
 
-(** F-C07: with the create not yet listed and the new ObjectSet without revision, the slow-cache branch reports a hash
-    collision; two ObjectSets are created for one unchanged template. *)
-Theorem C07_exactly_one_refuted :
-  exists w0 h, Inv w0 /\ count_changes wit_hash no_slices false false w0 h = 0%nat /\
-               count_creates wit_hash no_slices false false w0 h = 2%nat.
-Proof. exact exactly_one_refuted. Qed.
-Print Assumptions C07_exactly_one_refuted.
-
-(** The repaired test (revision 0 accepted) creates one ObjectSet on the same schedule. *)
-Theorem C07_exactly_one_repaired_witness :
-  count_creates wit_hash no_slices false true wit_w0 wit_stale_history = 1%nat /\
-  d_cc (dw_dep (run wit_hash no_slices false true wit_w0 wit_stale_history)) = None.
+(** In the create-not-yet-listed window with an unchanged template the code as it is creates one ObjectSet
+    (concrete run; the slow-cache test accepts the just-created ObjectSet without revision). *)
+Theorem C07_exactly_one_stale_witness :
+  count_creates wit_hash no_slices wit_w0 wit_stale_history = 1%nat /\
+  d_cc (dw_dep (run wit_hash no_slices wit_w0 wit_stale_history)) = None.
 Proof. exact wit_stale_repaired. Qed.
-Print Assumptions C07_exactly_one_repaired_witness.
+Print Assumptions C07_exactly_one_stale_witness.
+
+(** F-C07, fixed by /repo commit 0384cff: the slow-cache test as it was (holder's revision >= latest listed revision)
+    reported a hash collision for the just-created ObjectSet; two ObjectSets for one unchanged template. *)
+Theorem C07_exactly_one_v0_refuted :
+  exists w0 h, Inv w0 /\ count_changes_v0 wit_hash no_slices w0 h = 0%nat /\ count_creates_v0 wit_hash no_slices w0 h = 2%nat.
+Proof. exact exactly_one_v0_refuted. Qed.
+Print Assumptions C07_exactly_one_v0_refuted.
+
+(** The two shapes of the test differ only for a name holder that has not reported its revision. *)
+Theorem C07_slow_cache_v0_agrees :
+  forall d prev c, srev c <> 0%Z -> adoptable d prev c = adoptable_v0 d prev c.
+Proof. exact adoptable_v0_agrees. Qed.
+Print Assumptions C07_slow_cache_v0_agrees.
 
 (** The creation monitors of the correspondence check accept every pass of the model (fresh List). *)
 Theorem C07_monitor_sound :
-  forall hash fault slices sliceaware rev0ok w w' evs r,
-    NoDup (map sname (dw_sets w)) -> dep_pass hash fault slices sliceaware rev0ok false w = (w', evs, r) ->
+  forall hash fault slices w w' evs r,
+    NoDup (map sname (dw_sets w)) -> dep_pass hash fault slices false w = (w', evs, r) ->
     m07_spec (state_of w) (obs_of w' evs r) = true /\ m07_prev (state_of w) (obs_of w' evs r) = true.
 Proof. exact monitor_sound_create. Qed.
 Print Assumptions C07_monitor_sound.
@@ -156,6 +163,6 @@ Example C07_history_ok : Forall ok_step [SDep false None; SDep false None; SSet 
 Proof. repeat constructor. Qed.
 Print Assumptions C07_history_ok.
 Example C07_fresh_creates_one :
-  count_creates wit_hash no_slices false false wit_w0 [SDep false None; SDep false None; SRev 100; SDep false None] = 1%nat.
+  count_creates wit_hash no_slices wit_w0 [SDep false None; SDep false None; SRev 100; SDep false None] = 1%nat.
 Proof. exact wit_fresh_one_create. Qed.
 Print Assumptions C07_fresh_creates_one.
